@@ -1,6 +1,6 @@
 (* C10: what today's code does NOT satisfy. Witnesses are closed by vm_compute. *)
 From Coq Require Import NArith List Bool.
-From OG Require Import C10.Model C10.Regex C10.RegexSearch C10.Prune.
+From OG Require Import C10.Model C10.Regex C10.RegexSearch C10.Prune C10.Cache.
 Import ListNotations.
 Open Scope N_scope.
 
@@ -124,3 +124,15 @@ Theorem C10_prune_variant_refuted :
   exists am f ts, prune_atom_absent_only_empty am f ts <> eval am (atom_of f) ts.
 Proof. exists (fun _ _ => false), (2, Neq, 7), [(1, 1)]. vm_compute. discriminate. Qed.
 Print Assumptions C10_prune_variant_refuted.
+
+(* Today the callback of a background flush is deferred to a 10 s tick: the filter cached before the flush keeps its old answer
+   although the new series is visible to the uncached search. host = 'a' over {host=a}, then {host=a,region=eu} is written and
+   flushed in the background. *)
+Theorem C10_current_refuted_result_cache :
+  exists am n os, ~ Forall (fun x => match x with Some (a, u) => a = u | None => True end) (crun false am (cempty n) os).
+Proof.
+  exists (fun _ _ => false), 100,
+    [OInsert (mkS 1 [(1, 1)]); OFlush; OSearch 1 (Atom 1 Eq 1); OInsert (mkS 1 [(1, 1); (2, 3)]); OBgFlush; OSearch 1 (Atom 1 Eq 1)].
+  vm_compute. intros H. repeat match goal with H : Forall _ (_ :: _) |- _ => inversion H; clear H; subst end. discriminate.
+Qed.
+Print Assumptions C10_current_refuted_result_cache.
